@@ -26,10 +26,13 @@ let immediate kind = List.mem kind ["na"; "opt"; "star"; "bad"; "ver"]
 
 let gated (items : string list) : string =
   let st = ref cinit in
-  let workers = nat_of_int 8 in
+  (* the server handles the requests of one connection one at a time: the per-connection pipeline has ONE worker,
+     whatever the size of the pool *)
+  let workers = nat_of_int 1 in
   let out = ref [] in
   let reqs : (string, int * string * bool) Hashtbl.t = Hashtbl.create 16 in   (* id -> (index, kind, close) *)
-  let by_index : (int, string) Hashtbl.t = Hashtbl.create 16 in
+  let order = ref [] in                                                        (* ids in arrival order, not yet answered *)
+  let opened : (string, unit) Hashtbl.t = Hashtbl.create 16 in
   let finish id =
     let (idx, kind, close) = Hashtbl.find reqs id in
     let before = List.length !st.c_sent in
@@ -42,24 +45,30 @@ let gated (items : string list) : string =
         if p.p_close then out := "X" :: !out
       | None -> ()
     end in
+  let rec progress () =
+    st := cstep workers !st Take;
+    match !order with
+    | id :: rest ->
+      let (_, kind, _) = Hashtbl.find reqs id in
+      if immediate kind || Hashtbl.mem opened id then begin finish id; order := rest; progress () end
+    | [] -> () in
   List.iter (fun item ->
       if item <> "" then begin
         if item.[0] = 'Q' then begin
-          let qs = split_on '+' item in
-          let imm = ref [] in
           List.iter (fun q ->
               match split_on ':' (String.sub q 1 (String.length q - 1)) with
               | id :: kind :: rest ->
                 let close = (rest = ["c"]) in
                 let idx = int_of_nat !st.c_next in
                 Hashtbl.replace reqs id (idx, kind, close);
-                Hashtbl.replace by_index idx id;
-                st := cstep workers !st Extract;
-                st := cstep workers !st Take;
-                if immediate kind then imm := id :: !imm
-              | _ -> failwith "Q") qs;
-          List.iter finish (List.rev !imm)
-        end else if item.[0] = 'O' then finish (String.sub item 1 (String.length item - 1))
+                order := !order @ [id];
+                st := cstep workers !st Extract
+              | _ -> failwith "Q") (split_on '+' item);
+          progress ()
+        end else if item.[0] = 'O' then begin
+          Hashtbl.replace opened (String.sub item 1 (String.length item - 1)) ();
+          progress ()
+        end
       end) items;
   String.concat "" (List.map (fun t -> t ^ " ") (List.rev !out))
 
